@@ -151,7 +151,7 @@ func GenReopen(r *rand.Rand, idx int) ReopenDesc {
 			}
 		}
 		if strings.HasPrefix(op.State, "sb") && d.Via == "transport" {
-			op.Drain = true // what the library buffers of a subnegotiation is outside the property: never carried over unread
+			op.Drain = true
 		}
 		if op.End == "idle" && !op.Drain {
 			op.Tail = ""
@@ -313,7 +313,7 @@ func runReopenOnce(d ReopenDesc) (res mon.Result, early bool) {
 		tail, _ := hex.DecodeString(op.Tail)
 		wire := append(wireOf(op.Items), trailer...)
 		ref := refParse(wire)
-		judgeable := !strings.HasPrefix(op.State, "sb")
+		judgeable := true // IAC SB is a two-byte command to the property: what follows it is data
 		psi0, psiOK := cpuPressure()
 		t0 := time.Now()
 		srv := &server{ln: ln, wire: wire, segs: op.Segs, gaps: op.GapsUs, tail: tail, seq: &seq, t0: t0, window: T,
